@@ -1,13 +1,17 @@
 """C09 Range formatting touches only statements inside the range - static necessary conditions."""
 import r_skip
+import r_range
 
 EXPLANATION = (
     "(a) on the NotInRange edge of should_format_node, format_stmt / format_last_stmt only enter the stmt_block "
     "path; (b) every function on that path (stmt_block::*, format_last_stmt_block) calls only format_block, its own "
     "siblings and shape helpers - no node formatter, no trivia update, no token construction - so out-of-range "
     "statements are rebuilt from their original tokens; (c) format_block's shared post-processing is dominated by "
-    "should_format_node == Normal; (R-EOF) format_eof returns its token unchanged unless Normal. Not decided: the "
-    "byte-offset comparison itself, 'in-range statements equal the whole-file result' (layout).")
+    "should_format_node == Normal; (R-EOF) format_eof returns its token unchanged unless Normal. (R-RANGE) the byte-offset "
+    "test itself: should_format_node touches the node offsets and the bounds through order comparisons only, so every "
+    "ordering of (start, end, start bound, end bound) and every combination of present bounds is enumerated against "
+    "the MIR paths and must yield NotInRange exactly when the node starts before the start bound or ends after the end "
+    "bound. Not decided: 'in-range statements equal the whole-file result' (layout).")
 ASSUMPTIONS = ["to_owned/clone of a full_moon node reproduces its tokens and trivia verbatim",
                "rustc MIR and Instance::try_resolve are trusted"]
 
@@ -15,4 +19,5 @@ ASSUMPTIONS = ["to_owned/clone of a full_moon node reproduces its tokens and tri
 def run(ctx):
     return [r_skip.rule_skip_edge(ctx, "C09", statuses=("NotInRange",)), r_skip.rule_block_path(ctx, "C09"),
             r_skip.rule_post(ctx, "C09"), r_skip.rule_eof(ctx, "C09"),
-            r_skip.rule_sort_guard(ctx, "C09", must_block=("NotInRange",))]
+            r_skip.rule_sort_guard(ctx, "C09", must_block=("NotInRange",)),
+            r_range.rule_range(ctx, "C09")]
